@@ -322,6 +322,20 @@ def run(ctx: Ctx) -> Result:
     return res
 
 
+def witness_fails(ctx: Ctx, f):
+    """does the recorded witness of a finding (still / again) violate the property on the real code?"""
+    T = importlib.import_module("qlasskit.types")
+    w = f.get("witness", {})
+    for kind, t, extra in scalar_types(T):
+        if t.__name__ == w.get("type"):
+            bs = [c == "1" for c in w["bits"]]
+            code = code_scalar(kind, t, extra, bs)
+            n = sum(1 << k for k, b in enumerate(bs) if b)
+            return not (code.get("to_bool") == w["bits"] and code.get("const") == w["bits"]
+                        and code.get("amp_index") == n and code.get("amp_len") == 2 ** len(bs))
+    return None
+
+
 def replay(ctx: Ctx, payload):
     import json
 
